@@ -143,6 +143,14 @@ func flowScn(g *Gen, mix flowMix) *Flow {
 		}
 		g.stats.Mut("alias-domains")
 	}
+	if g.r.Chance(1, 12) {
+		// a large attester set: more than a hundred enabled entries that sort before every real key (beyond any default
+		// page size); honest attestations are signed by keys at the far end of the collection
+		for i, k := 0, 101+g.r.Intn(20); i < k; i++ {
+			s.fillers = append(s.fillers, fmt.Sprintf("0x03%06x", i))
+		}
+		g.stats.Mut("many-attesters")
+	}
 	if g.r.Chance(1, 10) {
 		// a long past: more than a hundred messages already received (beyond any default page size)
 		for i, k := 0, 101+g.r.Intn(30); i < k; i++ {
